@@ -60,7 +60,11 @@ def length_catalogue(binary, rnd, per_len=2):
     lines = sorted(set(c["text"] for c in rep))
     # a 13-byte and a 15-byte instruction, and the multi-byte nops themselves as payload
     lines += ["mov qword [eax+ebx*8+0x11223344], 0x55667788", "mov rax, 0x1122334455667788", "clc", "ret", "nop", "nop7", "nop11",
-              "add dword [r8d+r9d*4+0x11223344], 0x55667788", "vpaddb ymm8, ymm9, [r10+r11*8+0x11223344]"]
+              "add dword [r8d+r9d*4+0x11223344], 0x55667788", "vpaddb ymm8, ymm9, [r10+r11*8+0x11223344]",
+              # the longest things the library emits (14-17 bytes; the last three carry immediates the destination cannot hold - what matters
+              # here is only that the fitting / counting rules are applied to whatever length plain assembly produces)
+              "mov word [r8d+r9d*8+0x11223344], 0x1122", "imul r9, [eax+ebx*8+0x11223344], 0x11223344", "shld word [r8d+r9d*8+0x11223344], r10w, 5",
+              "add qword [rax+rbx*8+0x11223344], 0x1122334455", "add qword [eax+ebx*8+0x11223344], 0x1122334455", "test qword [r8d+r9d*8+0x11223344], 0x1122334455667788"]
     alone = corpus.accepted_alone(binary, lines)
     by = {}
     for l, h in alone.items():
